@@ -1188,3 +1188,13 @@ N('n_rename_private_fns', ALL, 'two private functions renamed (every use updated
   (LIB, '        self.become_undead(&mut runtime);', '        self.go_defunct(&mut runtime);'),
   (LIB, '                        self.become_undead(runtime);', '                        self.go_defunct(runtime);'),
   (LIB, '                    self.become_undead(runtime);', '                    self.go_defunct(runtime);'))
+
+N('n_rename_private_fields', ALL, 'three private fields renamed everywhere (Foca.timer_token, Members.inner, Probe.indirect_ack_count)',
+  (LIB, ('re', r'\bself\.timer_token\b(?!\()'), 'self.timer_epoch'),
+  (LIB, ('re', r'(?m)^    timer_token: TimerToken,'), '    timer_epoch: TimerToken,'),
+  (LIB, ('re', r'(?m)^            timer_token: TimerToken::default\(\),'), '            timer_epoch: TimerToken::default(),'),
+  (MEMBER, ('re', r'\.inner\b'), '.records'),
+  (MEMBER, ('re', r'(?m)^    pub\(crate\) inner: Vec<Member<T>>,'), '    pub(crate) records: Vec<Member<T>>,'),
+  (MEMBER, ('re', r'(?m)^            inner,$'), '            records: inner,'),
+  (LIB, ('re', r'\bmembers\.inner\b'), 'members.records'),
+  ('src/probe.rs', ('re', r'\bindirect_ack_count\b'), 'indirect_acks'))
